@@ -6,6 +6,7 @@ pub mod c03;
 pub mod catalogue;
 pub mod c04;
 pub mod c05;
+pub mod c06;
 pub mod c07;
 pub mod c08;
 pub mod c10;
@@ -20,7 +21,7 @@ pub mod fmtwork;
 pub mod c08_lang;
 
 pub fn all() -> Vec<PropertyDef> {
-    vec![c01::def(), c02::def(), c03::def(), c04::def(), c05::def(), c07::def(), c08::def(), c10::def(), c11::def(), c12::def(), c13::def(), c14::def(), c16::def(), c18::def(), c19::def()]
+    vec![c01::def(), c02::def(), c03::def(), c04::def(), c05::def(), c06::def(), c07::def(), c08::def(), c10::def(), c11::def(), c12::def(), c13::def(), c14::def(), c16::def(), c18::def(), c19::def()]
 }
 
 pub fn lookup(id: &str) -> Option<PropertyDef> {
